@@ -215,6 +215,17 @@ def run_case(case):
                 return result(False, sig="StateVector.add-or-scale", msg=f"{dicts[i]} {dicts[j]}", outcome="viol")
             if np.abs(_np(a) - ra).max() > 1e-13 or np.abs(_np(b) - rb).max() > 1e-13:
                 return result(False, sig="operand-mutated", msg=f"{dicts[i]} {dicts[j]}", outcome="viol")
+        # arbitrary complex (also non-Hermitian) matrices held in DensityMatrix objects: overlap is documented as Tr(self^dag other)  (+ and c* are explicitly not implemented for density matrices)
+        rs = np.random.RandomState(77 + seed + n)
+        mats = [rs.normal(size=(2**n, 2**n)) + 1j * rs.normal(size=(2**n, 2**n)) for _ in range(4)]
+        mats.append(np.outer(refs[0], refs[min(1, len(refs) - 1)].conj()))  # a coherence |psi><phi|
+        dms = [DensityMatrix(torch.tensor(mm, dtype=torch.complex128), gpu=False) for mm in mats]
+        for i, j in itertools.product(range(len(mats)), repeat=2):
+            calls += 2
+            ov = complex(dms[i].overlap(dms[j]))
+            exp = np.trace(mats[i].conj().T @ mats[j])
+            if abs(ov - exp) > 1e-11 * max(1.0, abs(exp)):
+                return result(False, sig="DensityMatrix.overlap-general", msg=f"N={n}: overlap of two complex matrices is {ov}, Tr(A^dag B) = {exp}", outcome="viol")
         return result(True, outcome=["states", n, count], states=count, transitions=calls, nontrivial=nontriv > 0)
 
     terms = _tensor_terms(n, seed)
